@@ -7,6 +7,8 @@ package compiler
 // when the loop is entered, per builtin (template-level loop invariant of the bytecode logic):
 // filter keeps one value per selected element, map one per element, the others none.
 //@ func compiler.compiler.BuiltinNode
+//@   assigns *
+//@   requires[current-node] c != nil && len(c.nodes) > 0 && ptrof(c.nodes[len(c.nodes)-1]) == node
 //@   property C01 C05 C18
 //@   case filter: loop-height count
 //@   case map: loop-height i
@@ -80,3 +82,74 @@ package compiler
 //@ func compiler.init
 //@   property C15
 //@   ensures[basic-types] intType == rtype("int") && stringType == rtype("string")
+
+// while a node's code is generated the node is on top of the compiler's node stack: emit records the location of
+// that top node for every instruction it writes (C13: a failing instruction is reported at its own node)
+//@ func compiler.compiler.compile
+//@   property C13
+//@   mode panics
+//@   assigns *
+//@   requires c != nil && node != nil
+//@ func compiler.compiler.ArrayNode
+//@   assigns *
+//@   requires[current-node] c != nil && len(c.nodes) > 0 && ptrof(c.nodes[len(c.nodes)-1]) == node
+//@ func compiler.compiler.BinaryNode
+//@   assigns *
+//@   requires[current-node] c != nil && len(c.nodes) > 0 && ptrof(c.nodes[len(c.nodes)-1]) == node
+//@ func compiler.compiler.BoolNode
+//@   assigns *
+//@   requires[current-node] c != nil && len(c.nodes) > 0 && ptrof(c.nodes[len(c.nodes)-1]) == node
+//@ func compiler.compiler.ClosureNode
+//@   assigns *
+//@   requires[current-node] c != nil && len(c.nodes) > 0 && ptrof(c.nodes[len(c.nodes)-1]) == node
+//@ func compiler.compiler.ConditionalNode
+//@   assigns *
+//@   requires[current-node] c != nil && len(c.nodes) > 0 && ptrof(c.nodes[len(c.nodes)-1]) == node
+//@ func compiler.compiler.ConstantNode
+//@   assigns *
+//@   requires[current-node] c != nil && len(c.nodes) > 0 && ptrof(c.nodes[len(c.nodes)-1]) == node
+//@ func compiler.compiler.FloatNode
+//@   assigns *
+//@   requires[current-node] c != nil && len(c.nodes) > 0 && ptrof(c.nodes[len(c.nodes)-1]) == node
+//@ func compiler.compiler.FunctionNode
+//@   assigns *
+//@   requires[current-node] c != nil && len(c.nodes) > 0 && ptrof(c.nodes[len(c.nodes)-1]) == node
+//@ func compiler.compiler.IdentifierNode
+//@   assigns *
+//@   requires[current-node] c != nil && len(c.nodes) > 0 && ptrof(c.nodes[len(c.nodes)-1]) == node
+//@ func compiler.compiler.IndexNode
+//@   assigns *
+//@   requires[current-node] c != nil && len(c.nodes) > 0 && ptrof(c.nodes[len(c.nodes)-1]) == node
+//@ func compiler.compiler.IntegerNode
+//@   assigns *
+//@   requires[current-node] c != nil && len(c.nodes) > 0 && ptrof(c.nodes[len(c.nodes)-1]) == node
+//@ func compiler.compiler.MapNode
+//@   assigns *
+//@   requires[current-node] c != nil && len(c.nodes) > 0 && ptrof(c.nodes[len(c.nodes)-1]) == node
+//@ func compiler.compiler.MatchesNode
+//@   assigns *
+//@   requires[current-node] c != nil && len(c.nodes) > 0 && ptrof(c.nodes[len(c.nodes)-1]) == node
+//@ func compiler.compiler.MethodNode
+//@   assigns *
+//@   requires[current-node] c != nil && len(c.nodes) > 0 && ptrof(c.nodes[len(c.nodes)-1]) == node
+//@ func compiler.compiler.NilNode
+//@   assigns *
+//@   requires[current-node] c != nil && len(c.nodes) > 0 && ptrof(c.nodes[len(c.nodes)-1]) == node
+//@ func compiler.compiler.PairNode
+//@   assigns *
+//@   requires[current-node] c != nil && len(c.nodes) > 0 && ptrof(c.nodes[len(c.nodes)-1]) == node
+//@ func compiler.compiler.PointerNode
+//@   assigns *
+//@   requires[current-node] c != nil && len(c.nodes) > 0 && ptrof(c.nodes[len(c.nodes)-1]) == node
+//@ func compiler.compiler.PropertyNode
+//@   assigns *
+//@   requires[current-node] c != nil && len(c.nodes) > 0 && ptrof(c.nodes[len(c.nodes)-1]) == node
+//@ func compiler.compiler.SliceNode
+//@   assigns *
+//@   requires[current-node] c != nil && len(c.nodes) > 0 && ptrof(c.nodes[len(c.nodes)-1]) == node
+//@ func compiler.compiler.StringNode
+//@   assigns *
+//@   requires[current-node] c != nil && len(c.nodes) > 0 && ptrof(c.nodes[len(c.nodes)-1]) == node
+//@ func compiler.compiler.UnaryNode
+//@   assigns *
+//@   requires[current-node] c != nil && len(c.nodes) > 0 && ptrof(c.nodes[len(c.nodes)-1]) == node
